@@ -242,7 +242,7 @@ class MustPass:
     callee for which the same holds), or a guard edge on which a literal holds."""
 
     def __init__(self, facts, sink_pred, guard_fn=None, combinators=None, name="sink", max_depth=12,
-                 extra_callee=None):
+                 extra_callee=None, ret_guard=None):
         self.facts = facts
         self.sink_pred = sink_pred        # CallSite -> bool
         self.guard_fn = guard_fn          # (body, sym, bb) -> list of (bb, target) true-edges or None
@@ -251,6 +251,7 @@ class MustPass:
         self.max_depth = max_depth
         self.visited = set()
         self.extra_callee = extra_callee  # CallSite -> list of body names also to consider (closures args)
+        self.ret_guard = ret_guard        # stripped term -> bool: the returned bool IS the guard literal
 
     def holds(self, fname, depth=0):
         if fname in self.memo:
@@ -313,6 +314,11 @@ class MustPass:
                     if edges:
                         removed_edges.update(edges)
                         passing.append((bi, "guard", "literal true on %s" % (edges,)))
+        if self.ret_guard is not None and oc.kind == "bool":
+            for bi, si, t in success_values(body, oc):
+                if self.ret_guard(t):
+                    removed.add(bi)
+                    passing.append((bi, "returns the guard value", render(t)))
         rets = oc.returns()
         p = body.path(0, rets, removed, removed_edges)
         if p is None:
